@@ -146,3 +146,18 @@ impl State {
         Access::set_or_create(&mut self.last_access, path_id, version);
     }
 }
+
+#[cfg(feature = "verif-hooks")]
+impl State {
+    pub(super) fn verif_dump(&self) -> String {
+        format!(
+            "Notify spurious={} did_spur={} sc={} notified={} la={} sync={}",
+            self.spurious as u8,
+            self.did_spur as u8,
+            self.seq_cst as u8,
+            self.notified as u8,
+            Access::verif_dump(&self.last_access),
+            self.synchronize.verif_dump()
+        )
+    }
+}
